@@ -575,3 +575,125 @@ pub mod c20 {
         }
     }
 }
+
+// C04 positive controls: lowerings of parameter properties, enums and namespaces that are wrong in every way rules/c04.py looks for
+pub mod c04 {
+    pub enum Op {
+        LoadThis { dst: u8 },
+        SetPropertyConst { obj: u8, key: u16, value: u8 },
+        SetProperty { obj: u8, key: u8, value: u8 },
+        CreateObject { dst: u8 },
+        DeclareVar { name: u16, init: u8 },
+        TryGetVar { dst: u8, name: u16 },
+        ExportBinding { name: u16, value: u8 },
+        LoadNumber { dst: u8, value: f64 },
+    }
+    pub enum Accessibility { Public, Private, Protected }
+    pub enum Pattern { Identifier(String), Assignment(String, Box<Expression>), Rest(String) }
+    pub struct FunctionParam { pub pattern: Pattern, pub accessibility: Option<Accessibility>, pub readonly: bool }
+    pub struct ClassProperty { pub name: String }
+    pub enum LiteralValue { Number(f64), String(String) }
+    pub enum Expression { Literal(LiteralValue), Template(String), Unary(Box<Expression>), Binary(Box<Expression>, Box<Expression>), Identifier(String) }
+    pub struct EnumMember { pub name: String, pub initializer: Option<Expression> }
+    pub struct EnumDeclaration { pub name: String, pub members: Vec<EnumMember> }
+    pub struct NamespaceDeclaration { pub name: String, pub body: Vec<Statement> }
+    pub enum Statement {
+        VariableDeclaration(String),
+        FunctionDeclaration(String),
+        ClassDeclaration(String),
+        EnumDeclaration(EnumDeclaration),
+        NamespaceDeclaration(NamespaceDeclaration),
+        Other,
+    }
+    pub struct Compiler { pub code: Vec<Op> }
+    impl Compiler {
+        fn emit(&mut self, op: Op) { self.code.push(op); }
+        fn compile_expression(&mut self, _e: &Expression, dst: u8) { self.emit(Op::LoadNumber { dst, value: 0.0 }); }
+        // PP2: the this-store is emitted inside the parameter loop (through a helper)
+        fn emit_parameter_property(&mut self, key: u16, value: u8) {
+            self.emit(Op::LoadThis { dst: 9 });
+            self.emit(Op::SetPropertyConst { obj: 9, key, value });
+        }
+        fn compile_instance_field_initializer(&mut self, _p: &ClassProperty) {
+            self.emit(Op::LoadThis { dst: 9 });
+            self.emit(Op::SetPropertyConst { obj: 9, key: 0, value: 1 });
+        }
+        pub fn compile_constructor_body(&mut self, params: &[FunctionParam], fields: &[&ClassProperty]) {
+            // PP3: fields first
+            for fld in fields {
+                self.compile_instance_field_initializer(fld);
+            }
+            for (i, p) in params.iter().enumerate() {
+                match &p.pattern {
+                    Pattern::Identifier(_) => {
+                        // PP1: readonly forgotten
+                        if p.accessibility.is_some() {
+                            self.emit_parameter_property(i as u16, i as u8);
+                        }
+                    }
+                    Pattern::Assignment(_, d) => {
+                        // PP1: defaulted parameters are never parameter properties
+                        self.compile_expression(d, i as u8);
+                    }
+                    Pattern::Rest(_) => {}
+                }
+            }
+        }
+        pub fn compile_enum_declaration(&mut self, decl: &EnumDeclaration) {
+            // E5: no lookup of an existing binding
+            self.emit(Op::CreateObject { dst: 0 });
+            let mut current_value: i64 = 0;
+            for (i, member) in decl.members.iter().enumerate() {
+                if let Some(init) = &member.initializer {
+                    self.compile_expression(init, 1);
+                    if let Expression::Literal(LiteralValue::Number(n)) = init {
+                        current_value = *n as i64 + 1;
+                    }
+                } else {
+                    self.emit(Op::LoadNumber { dst: 1, value: current_value as f64 });
+                    current_value += 1;
+                }
+                // E1: members with an odd index get no forward mapping
+                if i % 2 == 0 {
+                    self.emit(Op::SetPropertyConst { obj: 0, key: i as u16, value: 1 });
+                }
+                // E2 / E6: numeric means "number literal or unary"; the counter only follows literals
+                let is_numeric = match &member.initializer {
+                    None => true,
+                    Some(init) => matches!(init, Expression::Literal(LiteralValue::Number(_))) || matches!(init, Expression::Unary(_)),
+                };
+                if is_numeric {
+                    self.emit(Op::SetProperty { obj: 0, key: 1, value: 2 });
+                }
+            }
+            // E3: the binding is declared after the members
+            self.emit(Op::DeclareVar { name: 0, init: 0 });
+        }
+        pub fn compile_namespace_declaration(&mut self, decl: &NamespaceDeclaration) {
+            self.emit(Op::TryGetVar { dst: 1, name: 0 });
+            self.emit(Op::CreateObject { dst: 0 });
+            for s in &decl.body {
+                self.add_export_to_namespace(0, s);
+            }
+        }
+        // N1: enums and nested namespaces are not published
+        fn add_export_to_namespace(&mut self, ns: u8, s: &Statement) {
+            match s {
+                Statement::VariableDeclaration(_) => self.emit(Op::SetPropertyConst { obj: ns, key: 1, value: 1 }),
+                Statement::FunctionDeclaration(_) => self.emit(Op::SetPropertyConst { obj: ns, key: 2, value: 1 }),
+                Statement::ClassDeclaration(_) => self.emit(Op::SetPropertyConst { obj: ns, key: 3, value: 1 }),
+                _ => {}
+            }
+        }
+        pub fn compile_export_declaration(&mut self, s: &Statement) {
+            match s {
+                Statement::VariableDeclaration(_) => self.emit(Op::ExportBinding { name: 1, value: 1 }),
+                Statement::FunctionDeclaration(_) => self.emit(Op::ExportBinding { name: 2, value: 1 }),
+                Statement::ClassDeclaration(_) => self.emit(Op::ExportBinding { name: 3, value: 1 }),
+                Statement::EnumDeclaration(_) => self.emit(Op::ExportBinding { name: 4, value: 1 }),
+                Statement::NamespaceDeclaration(_) => self.emit(Op::ExportBinding { name: 5, value: 1 }),
+                Statement::Other => {}
+            }
+        }
+    }
+}
